@@ -328,7 +328,7 @@ func isHashCallOnValueOf(v ssa.Value, sn ssa.Value) bool {
 // ---- C13 ---------------------------------------------------------------------
 
 func runC13(r *engine.Run) {
-	r.Rule("AGREE-rollback", "Rollback and RollbackTrie reset the same bookkeeping (created, tempDeleted, deleted) and both delete exactly the hashes in `created` through one batch")
+	r.Rule("AGREE-rollback", "Rollback and RollbackTrie reset the same bookkeeping (created, tempDeleted, deleted) and both delete exactly the hashes in `created` through one batch; RollbackTrie assigns the root from its node argument; the created-hash handler of a commit appends every received hash to the created list")
 	r.Rule("AGREE-checkpoint", "the fields of the checkpoint written by SaveRoot (hash, weight of the current root) are exactly those Rollback restores the root from, and SaveRoot resets `created`")
 	r.Rule("DOM-created", "see C11: every node a commit writes is recorded as created (also at the collapse level), so that a rollback removes it from storage")
 	r.Rule("DEP-checkpoint", "in Rollback every condition that decides which root is installed, and every field of the restored root reference, is computed from the checkpoint (loads below t.oldRoot and constants) only - never from the state being rolled back (t.root, Weight())")
@@ -342,6 +342,7 @@ func runC13(r *engine.Run) {
 	domCreated(r, "DOM-created")
 	depCheckpoint(r, "DEP-checkpoint")
 	domSameRoot(r, "DOM-sameroot")
+	rollbackInstalls(r, "AGREE-rollback")
 	domCleanFail(r, "DOM-cleanfail")
 }
 
@@ -1058,5 +1059,51 @@ func domSameRoot(r *engine.Run, rule string) {
 	})
 	if n < 1 || eq == nil {
 		r.Anchor(rule, fmt.Errorf("unresolved anchor: storage deletes (%d) / same-root comparison in RollbackTrie", n))
+	}
+}
+
+// rollbackInstalls: RollbackTrie installs the root it is given (or the empty
+// node), and the created-hash handler of a commit records every hash it
+// receives, so that a rollback knows what the rolled-back commit wrote.
+func rollbackInstalls(r *engine.Run, rule string) {
+	if f := wfn(r, rule, "RollbackTrie"); f != nil {
+		nodeP := f.Params[1]
+		installs := false
+		engine.Instrs(f, func(in ssa.Instruction) {
+			st, ok := in.(*ssa.Store)
+			if !ok {
+				return
+			}
+			if fld := engine.FieldOf(st.Addr); fld != nil && fld.Name() == "root" && dependsOn(st.Val, nodeP) {
+				installs = true
+			}
+		})
+		r.Check(installs, rule, fn(f)+"|installs the requested root", r.P.Pos(f.Pos()), "the root field is assigned from the node argument",
+			"RollbackTrie no longer installs the root it was asked to go back to: the trie keeps the rolled-back state while its bookkeeping is reset")
+	}
+	if f := wfn(r, rule, "collectDeleteAndCreated"); f != nil {
+		records := false
+		var scan func(g *ssa.Function)
+		scan = func(g *ssa.Function) {
+			engine.Instrs(g, func(in ssa.Instruction) {
+				st, ok := in.(*ssa.Store)
+				if !ok {
+					return
+				}
+				if fld := engine.FieldOf(st.Addr); fld != nil && fld.Name() == "created" {
+					if c, ok := st.Val.(*ssa.Call); ok {
+						if b, ok := c.Call.Value.(*ssa.Builtin); ok && b.Name() == "append" && g.Parent() != nil {
+							records = true
+						}
+					}
+				}
+			})
+			for _, a := range g.AnonFuncs {
+				scan(a)
+			}
+		}
+		scan(f)
+		r.Check(records, rule, fn(f)+"|records created hashes", r.P.Pos(f.Pos()), "the created-hash handler appends each received hash to the created list",
+			"the hashes of the nodes a commit writes are no longer recorded: a rollback cannot remove what the rolled-back commit created")
 	}
 }
